@@ -155,8 +155,13 @@ func (fr *Frame) call(in ssa.Instruction, c *ssa.CallCommon, st *State, g string
 		fr.assumeWF(res, st, g)
 		return res
 	}
-	fc.warn("call to %s without contract at %s: havoc everything", key, fc.eng.pos(pos))
-	fc.assumes["unspecified external call "+key+" (havoc)"] = true
+	if strings.HasSuffix(key, ".init") && len(c.Args) == 0 {
+		// initializer of an imported package, called at the start of a package initializer: havoc everything, one summary line
+		fc.assumes["package initializers of dependencies: unknown effects (everything havocked)"] = true
+	} else {
+		fc.warn("call to %s without contract at %s: havoc everything", key, fc.eng.pos(pos))
+		fc.assumes["unspecified external call "+key+" (havoc)"] = true
+	}
 	fc.noteWriteAll()
 	fc.havocComps(st, nil, true)
 	res := fr.resultSVs(sig, fr.prefix+"x", st, g)
@@ -167,6 +172,9 @@ func (fr *Frame) call(in ssa.Instruction, c *ssa.CallCommon, st *State, g string
 func (fc *FnCtx) canInline(fr *Frame, callee *ssa.Function, spec *FuncSpec) bool {
 	if spec != nil && spec.Inline {
 		return fr.depth < 8
+	}
+	if callee.Synthetic == "package initializer" {
+		return false // another package's initializer (called from a package initializer under contract): summarised, never inlined
 	}
 	if fr.depth >= 4 {
 		return false
@@ -275,6 +283,10 @@ func (fr *Frame) applySpecClosure(spec *FuncSpec, key string, sig *types.Signatu
 			if i < len(rec.bindings) {
 				if pt, ok := fv.Type().Underlying().(*types.Pointer); ok {
 					env.vars[fv.Name()] = SV{t: fc.load(cur, rec.bindings[i].t, pt.Elem()), typ: pt.Elem()}
+					if env.fvAddr == nil {
+						env.fvAddr = map[string]SV{}
+					}
+					env.fvAddr[fv.Name()] = SV{t: rec.bindings[i].t, typ: pt.Elem()}
 				}
 			}
 		}
@@ -696,6 +708,9 @@ func (fr *Frame) appendBuiltin(c *ssa.CallCommon, args []SV, st *State, g string
 			st.heap[k] = h
 			return SV{t: res, typ: c.Args[0].Type()}
 		}
+		if fr.appendStructElems(s, more, len(args) > 1, res, newLen, st, et) { // ext_crypto.go: slice of flat structs
+			return SV{t: res, typ: c.Args[0].Type()}
+		}
 		fc.unsupported("append to slice of " + et.String())
 		return SV{t: res, typ: c.Args[0].Type()}
 	}
@@ -728,6 +743,12 @@ func (fr *Frame) appendBuiltin(c *ssa.CallCommon, args []SV, st *State, g string
 	}
 	fc.emit(fmt.Sprintf("(assert (forall ((j Int)) (! (=> (and (<= 0 j) (< j %s)) (= (select %s %s) (select %s %s))) :pattern ((select %s %s)))))",
 		slen(s.t), nb, idx(ro, "j"), oldBlk, idx(soff(s.t), "j"), nb, idx(ro, "j")))
+	if fr.rootMode("append-back") {
+		// `mode append-back`: the same fact, also instantiated from reads of the OLD block, so that an element known before the append
+		// (e.g. an existential witness of a loop invariant) is known to be an element of the result
+		fc.emit(fmt.Sprintf("(assert (forall ((j Int)) (! (=> (and (<= 0 j) (< j %s)) (= (select %s %s) (select %s %s))) :pattern ((select %s %s)))))",
+			slen(s.t), nb, idx(ro, "j"), oldBlk, idx(soff(s.t), "j"), oldBlk, idx(soff(s.t), "j")))
+	}
 	fc.emit(fmt.Sprintf("(assert (=> %s (forall ((i Int)) (! (=> (or (< i %s) (>= i (+ %s %s))) (= (select %s i) (select %s i))) :pattern ((select %s i))))))",
 		inPlace, soff(s.t), soff(s.t), newLen, nb, oldBlk, nb))
 	fc.setComp(st, k, srt, app("store", heap, sarr(res), nb))
@@ -784,6 +805,12 @@ func (fr *Frame) copyBuiltin(c *ssa.CallCommon, args []SV, st *State, g string) 
 		// the copied window holds the same byte string as the source window (see builtin seq)
 		fc.eng.declareUF(fc, "bseq", []string{"(Array Int Int)", "Int", "Int"}, "Int")
 		fc.assume("true", eq(app("bseq", nb, soff(dst.t), n), app("bseq", app("select", heap, sarr(src.t)), soff(src.t), n)))
+		// ... and every window of the destination block that is disjoint from the written one holds the byte string it held
+		// before (bseq is a function of the content of the window; added for C13: two copies into the halves of one array)
+		if fc.usesFact("blockframe") { // opt-in (`uses blockframe`), see ext_crypto.go
+			fc.emit(fmt.Sprintf("(assert (forall ((wo Int) (wn Int)) (! (=> (and (>= wn 0) (or (<= (+ wo wn) %s) (>= wo (+ %s %s)))) (= (bseq %s wo wn) (bseq %s wo wn))) :pattern ((bseq %s wo wn)))))",
+				soff(dst.t), soff(dst.t), n, nb, oldBlk, nb))
+		}
 	}
 	if _, used := fc.ufs["kvval"]; used && fc.tc.sortOf(et) == "Int" && tc.sortOf(src.typ) != "Str" {
 		// T-KV: value ids are functions of the content, and copy makes dst[:n] and src[:n] equal byte strings
